@@ -326,6 +326,22 @@ ADDENDA8 = {
     'C20': 'R20.1 no std::forward of a by-value member in a re-callable member function.',
 }
 
+ADDENDA9 = {
+    'C01': 'R01.15 (= R18.4) a copied token keeps its =value, also when copied onto itself.',
+    'C02': 'R13.1 re-evaluated as part of R02.7 (a refused re-declaration leaves no ghost option that swallows the value).',
+    'C03': 'R03.10 the environment is consulted on every path where the option was not given and a variable is bound; R03.11 who-may-call: env::get / parse_env_value only from the check() functions.',
+    'C04': 'format strings inside catch handlers on the parse path are literals too; R14.4 re-evaluated as part of R04.5.',
+    'C06': 'R06.13 fresh storage is assigned to data_ only where size_ == 0.',
+    'C07': 'R07.10 rvalue-reference parameters are only consumed (no swap / assignment into the source).',
+    'C10': 'R10.2 the discarding operator<< does not copy its operand.',
+    'C11': 'R03.11 re-evaluated as part of R11.8.',
+    'C12': 'R12.17 (= R13.4) the consistency check refuses nothing but duplicate letters.',
+    'C13': 'R13.2 every lookup in has_option_with_name asks for the declared name; R13.4 raises only on a failed letter insertion.',
+    'C15': 'R15.4 the environment hint is shown whenever a variable is bound; R13.3 re-evaluated as part of R15.8.',
+    'C17': 'R17.1 a rejection of the empty needle in front of a loop does not hold inside it when the loop writes through a reference parameter of the same type (may-alias).',
+    'C20': 'R20.5 no adaptor function that runs the wrapped iterator\'s operations is noexcept.',
+}
+
 TECH = {
     "C02": "verbatim value-flow (carrier) analysis + must-facts on the value/next-token selection + token-syntax language inclusion (regex-literal automata, or finite-domain abstract interpretation of a hand-written character check)",
     "C04": "context-sensitive must-facts dataflow over the call graph below parse() + truth-table entailment of guard preconditions + call-graph effect rules (regex subjects, recursion, catch-handler outcomes) + finite-domain abstract interpretation of the token syntax check",
@@ -352,6 +368,8 @@ def main():
     for k, v in ADDENDA7.items():
         CLAIMS[k]["text"] = CLAIMS[k]["text"].rstrip() + " " + v
     for k, v in ADDENDA8.items():
+        CLAIMS[k]["text"] = CLAIMS[k]["text"].rstrip() + " " + v
+    for k, v in ADDENDA9.items():
         CLAIMS[k]["text"] = CLAIMS[k]["text"].rstrip() + " " + v
     for k, v in TECH.items():
         CLAIMS[k]["technique"] = v
